@@ -839,6 +839,119 @@ Definition reorder (keys : list bytes) (ps : list (bytes * bytes)) : list (bytes
   let hit := flat_map (fun k => match lookup k ps with Some v => [(k, v)] | None => [] end) keys in
   hit ++ filter (fun kv => negb (mem (fst kv) keys)) ps.
 
+(* ---------- the header block reader: textproto.Reader.ReadMIMEHeader over the responder's STDOUT
+   byte stream, as FCGIClient.Request uses it (bufio.ReadLine line splitting, continuation lines,
+   canonical keys, repeated keys, missing colon, bare LF and CRLF), then Request's Status rule ---------- *)
+Definition is_ws (c : N) : bool := (c =? 32) || (c =? 9).
+Fixpoint drop_ws (s : bytes) : bytes :=
+  match s with c :: r => if is_ws c then drop_ws r else s | [] => [] end.
+Definition trim_ws (s : bytes) : bytes := rev (drop_ws (rev (drop_ws s))).       (* textproto.trim *)
+
+(* bufio.Reader.ReadLine: up to the first LF, ONE CR before it dropped; an unterminated last line is
+   returned as it is.  Result: line, rest. *)
+Fixpoint cut_lf (s cur : bytes) : bytes * bytes :=
+  match s with
+  | [] => (rev cur, [])
+  | c :: r => if c =? 10 then (rev (match cur with 13 :: p => p | _ => cur end), r) else cut_lf r (c :: cur)
+  end.
+Definition next_line (s : bytes) : option (bytes * bytes) :=      (* None: io.EOF *)
+  match s with [] => None | _ => Some (cut_lf s []) end.
+
+(* readContinuedLineSlice's loop: `for r.skipSpace() > 0 { buf += ' ' + trim(next line) }` *)
+Fixpoint cont_lines (fuel : nat) (buf s : bytes) : bytes * bytes :=
+  match fuel with
+  | O => (buf, s)
+  | S f =>
+    match s with
+    | c :: _ =>
+        if is_ws c then
+          match next_line (drop_ws s) with
+          | None => (buf ++ [32], [])
+          | Some (l, rest) => cont_lines f (buf ++ 32 :: trim_ws l) rest
+          end
+        else (buf, s)
+    | [] => (buf, [])
+    end
+  end.
+
+Definition is_alnum (c : N) : bool :=
+  ((48 <=? c) && (c <=? 57)) || ((65 <=? c) && (c <=? 90)) || ((97 <=? c) && (c <=? 122)).
+Definition valid_field_byte (c : N) : bool :=      (* textproto.validHeaderFieldByte: RFC 7230 tchar *)
+  is_alnum c || existsb (N.eqb c) [33; 35; 36; 37; 38; 39; 42; 43; 45; 46; 94; 95; 96; 124; 126].
+Definition valid_value_byte (c : N) : bool :=      (* validHeaderValueByte: HTAB, SP, VCHAR, obs-text *)
+  (c =? 9) || ((32 <=? c) && (c <=? 126)) || (128 <=? c).
+(* canonicalMIMEHeaderKey: None = not a header key (the whole block is refused) *)
+Definition mime_key (k : bytes) : option bytes :=
+  match k with
+  | [] => None
+  | _ => if forallb (fun c => valid_field_byte c || (c =? 32)) k
+         then Some (if existsb (N.eqb 32) k then k else canon_mime k)
+         else None
+  end.
+
+Inductive mres := MErr | MHead (fields : list (bytes * bytes)) (rest : bytes).
+Fixpoint mime_f (fuel : nat) (s : bytes) (acc : list (bytes * bytes)) : mres :=
+  match fuel with
+  | O => MErr                                   (* unreachable with fuel = S (length s) *)
+  | S f =>
+    match next_line s with
+    | None => MHead (rev acc) []                (* io.EOF: Request goes on with what was parsed *)
+    | Some ([], rest) => MHead (rev acc) rest
+    | Some (line, rest) =>
+        if negb (existsb (N.eqb 58) line) then MErr           (* mustHaveFieldNameColon *)
+        else
+          let '(kv, rest') := cont_lines (S (length rest)) (trim_ws line) rest in
+          let k := take_until 58 kv in
+          let v := skipn (S (length k)) kv in
+          match mime_key k with
+          | None => MErr
+          | Some key => if forallb valid_value_byte v then mime_f f rest' ((key, drop_ws v) :: acc) else MErr
+          end
+    end
+  end.
+Definition mime_head (s : bytes) : mres :=
+  match s with
+  | c :: _ => if is_ws c then MErr else mime_f (S (length s)) s []     (* "malformed MIME header initial line" *)
+  | [] => MHead [] []
+  end.
+
+(* Request's Status rule on the parsed multimap: Header.Get("Status") is the FIRST value stored under
+   exactly "Status"; strconv.Atoi of what precedes the first space (a sign is accepted) *)
+Definition first_value (key : bytes) (fields : list (bytes * bytes)) : bytes :=
+  match filter (fun f => beq (fst f) key) fields with f :: _ => snd f | [] => [] end.
+Definition atoi (s : bytes) : option Z :=
+  match s with
+  | 43 :: r => option_map Z.of_N (parse_dec r)
+  | 45 :: r => option_map (fun n => Z.opp (Z.of_N n)) (parse_dec r)
+  | _ => option_map Z.of_N (parse_dec s)
+  end.
+Definition status_of (fields : list (bytes * bytes)) : option N :=
+  match first_value (bs "Status") fields with
+  | [] => Some 200
+  | v => match atoi (take_until 32 v) with
+         | Some c => if (c <? 100)%Z || (999 <? c)%Z then None else Some (Z.to_N c)
+         | None => None
+         end
+  end.
+(* what the client side makes of the responder's output: None = Request fails (the handler answers 502) *)
+Inductive hres := HFail | HResp (code : N) (fields : list (bytes * bytes)) (body : bytes).
+Definition client_view (out : bytes) : hres :=
+  match mime_head out with
+  | MErr => HFail
+  | MHead fields rest => match status_of fields with Some st => HResp st fields rest | None => HFail end
+  end.
+(* the multimap as a Go map presents it: values of one key in arrival order *)
+Definition values_of (key : bytes) (fields : list (bytes * bytes)) : list bytes :=
+  map snd (filter (fun f => beq (fst f) key) fields).
+Definition multimap_ok (obs : list (bytes * list bytes)) (fields : list (bytes * bytes)) : bool :=
+  nodupb (map fst obs) &&
+  forallb (fun kv => list_beq beq (snd kv) (values_of (fst kv) fields) &&
+                     negb (match snd kv with [] => true | _ => false end)) obs &&
+  forallb (fun f => mem (fst f) (map fst obs)) fields.
+(* a head rendered with a chosen line end (CRLF or bare LF) *)
+Definition render_head_eol (eol : bytes) (fields : list (bytes * bytes)) : bytes :=
+  concat (map (fun f => fst f ++ [58; 32] ++ snd f ++ eol) fields) ++ eol.
+
 Record rscript := {
   rs_fields : list (bytes * bytes);     (* the responder's header fields, in order *)
   rs_body : list seg;
@@ -869,7 +982,14 @@ Inductive case :=
 | COverlap (streams : list (list (N * list seg * N) * list seg)) (sched : list (N * N))
            (obs : list (list seg * N * list seg * list N))   (* per reader: delivered, error, stderr, n of every Read *)
 (* cases whose runs overlapped in time (request i+1 was served completely during a body write of request i) *)
-| CTogether (l : list case).
+| CTogether (l : list case)
+(* the header block reader: ONE responder output under two framings (each a record list that ends with
+   its own END_REQUEST record, any appStatus / protocolStatus / padding), what FCGIClient.Request made
+   of each — (0 = failed | status code, header multimap sorted by key, body, stderr collected) —
+   and, when the output is a conforming rendering, its line end, fields and body *)
+| CHead (recsA recsB : list (N * list seg * N))
+        (conf : option (bytes * list (bytes * bytes) * list seg))
+        (obsA obsB : N * list (bytes * list bytes) * list seg * list seg).
 
 Definition exp_recs (l : list (N * list seg * N)) : list (N * bytes * N) :=
   map (fun r => (fst (fst r), expand (snd (fst r)), snd r)) l.
@@ -1238,6 +1358,53 @@ Definition judge_serve (cs : bool) (sv : server) (absroot : bytes) (cfgs : list 
                spec_dispatch cs declared stat_tbl open_tbl q obs && spec_io cs sv declared open_tbl q qbody rs obs)
   end.
 
+(* ---------- the head cases ---------- *)
+Definition hobs := (N * list (bytes * list bytes) * list seg * list seg)%type.
+Definition head_out (recs : list (N * bytes * N)) : bytes := stdout_of (before_end recs).
+Definition head_agree (recs : list (N * bytes * N)) (o : hobs) : bool :=
+  let '(code, hdrs, body, err) := o in
+  match client_view (head_out recs) with
+  | HFail => code =? 0
+  | HResp st f b => (code =? st) && multimap_ok hdrs f && beq (expand body) b &&
+                    beq (expand err) (contents_of T_STDERR (before_end recs))
+  end.
+Definition hdrs_beq (a b : list (bytes * list bytes)) : bool :=
+  list_beq (fun x y => beq (fst x) (fst y) && list_beq beq (snd x) (snd y)) a b.
+(* the clause "a function of the STDOUT bytes only", on the two observations *)
+Definition head_same (a b : hobs) : bool :=
+  let '(ca, ha, ba, _) := a in let '(cb, hb, bb, _) := b in
+  (ca =? cb) && ((ca =? 0) || (hdrs_beq ha hb && beq (expand ba) (expand bb))).
+(* stderr goes to the error log only, complete, whenever the response was delivered *)
+Definition head_stderr_ok (recs : list (N * bytes * N)) (o : hobs) : bool :=
+  let '(code, _, _, err) := o in (code =? 0) || beq (expand err) (contents_of T_STDERR (before_end recs)).
+Definition no_edge_ws (v : bytes) : bool :=
+  match v with [] => true | c :: _ => negb (is_ws c) && negb (is_ws (last v 0)) end.
+Definition conf_fieldb (f : bytes * bytes) : bool :=
+  negb (beq (fst f) []) && forallb valid_field_byte (fst f) &&
+  forallb valid_value_byte (snd f) && no_edge_ws (snd f) &&
+  negb (beq (canon_mime (fst f)) (bs "Transfer-Encoding")).
+(* a conforming head (CRLF or bare LF line ends): the client gets exactly these fields, status, body *)
+Definition head_conf_ok (out : bytes) (conf : option (bytes * list (bytes * bytes) * list seg)) (o : hobs) : bool :=
+  match conf with
+  | None => true
+  | Some (eol, fl, body0) =>
+      let '(code, hdrs, body, _) := o in
+      if beq out (render_head_eol eol fl ++ expand body0) && forallb conf_fieldb fl &&
+         (beq eol CRLF || beq eol [10])
+      then match resp_status fl with
+           | Some st => (code =? st) && hdrs_ok hdrs fl && beq (expand body) (expand body0)
+           | None => code =? 0
+           end
+      else false          (* the harness claimed a conforming rendering that is not one *)
+  end.
+Definition judge_head (recsA0 recsB0 : list (N * list seg * N))
+           (conf : option (bytes * list (bytes * bytes) * list seg)) (oa ob : hobs) : N :=
+  let ra := exp_recs recsA0 in let rb := exp_recs recsB0 in
+  verdict (head_agree ra oa && head_agree rb ob)
+          ((if beq (head_out ra) (head_out rb) then head_same oa ob else true) &&
+           head_stderr_ok ra oa && head_stderr_ok rb ob &&
+           head_conf_ok (head_out ra) conf oa && (if beq (head_out ra) (head_out rb) then head_conf_ok (head_out rb) conf ob else true)).
+
 Fixpoint judge (c : case) : N :=
   match c with
   | CWire ps hasbody body wire panicked => judge_wire ps hasbody body wire panicked
@@ -1252,4 +1419,5 @@ Fixpoint judge (c : case) : N :=
   | CTogether l =>
       (* every one of them is judged as if it had run alone: disagreement / violation of any of them *)
       fold_right (fun c acc => N.lor (judge c) acc) 0 l
+  | CHead recsA recsB conf oa ob => judge_head recsA recsB conf oa ob
   end.
